@@ -194,6 +194,43 @@ fn split_state(lts: &Lts, s: &Snap, n: usize, rng: &mut StdRng, lower_only: bool
             layers[l][i] = vec![2, 3];
         }
     }
+    // second pass: the same path with DIFFERENT TYPES in different layers.  The first layer that has a
+    // path decides its type: a lower directory (with a child) below an upper file is not part of the
+    // union, and neither is a lower file below an upper directory.
+    for (i, p) in u.iter().enumerate() {
+        if s[i][0] == 0 || !rng.gen_bool(0.35) {
+            continue;
+        }
+        let first = match (0..n).find(|&l| layers[l][i][0] != 0) {
+            Some(f) => f,
+            None => continue,
+        };
+        let cands: Vec<usize> = (first + 1..n)
+            .filter(|&l| {
+                layers[l][i][0] == 0
+                    && (1..p.len()).all(|k| layers[l][idx[&p[..k].to_vec()]][0] != 2)
+                    && u.iter().enumerate().all(|(j, q)| !(q.len() > p.len() && q[..p.len()] == p[..]) || layers[l][j][0] == 0)
+            })
+            .collect();
+        if cands.is_empty() {
+            continue;
+        }
+        let l = cands[rng.gen_range(0..cands.len())];
+        ensure_parents(&mut layers[l], p);
+        if s[i][0] == 1 {
+            layers[l][i] = vec![2, 3]; // a file hidden below the directory of the union
+        } else {
+            layers[l][i] = vec![1]; // a directory (with a child, if the universe has one) hidden below the file
+            if let Some((j, _)) = u.iter().enumerate().find(|(_, q)| q.len() == p.len() + 1 && q[..p.len()] == p[..]) {
+                layers[l][j] = if rng.gen_bool(0.5) { vec![2, 3] } else { vec![1] };
+                if layers[l][j][0] == 1 {
+                    if let Some((k, _)) = u.iter().enumerate().find(|(_, q)| q.len() == p.len() + 2 && q[..p.len() + 1] == u[j][..]) {
+                        layers[l][k] = vec![2, 3];
+                    }
+                }
+            }
+        }
+    }
     layers.into_iter().map(Some).collect()
 }
 
